@@ -4,7 +4,7 @@
 #![allow(unused_imports, dead_code, unused_variables)]
 use vstd::prelude::*;
 use crate::verif_ext::*;
-use crate::model::{ValueTag, DelimiterTag};
+use crate::model::{ValueTag, DelimiterTag, StatusCode};
 
 verus! {
 
@@ -43,6 +43,50 @@ pub open spec fn delimiter_tag_of(n: int) -> Option<DelimiterTag> {
     else if n == 0x05 { Some(DelimiterTag::UnsupportedAttributes) }
     else { None }
 }
+
+/// RFC 8011 Appendix B status codes, by symbol name.
+pub open spec fn status_code_of(n: int) -> Option<StatusCode> {
+    if n == 0x0000 { Some(StatusCode::SuccessfulOk) }
+    else if n == 0x0001 { Some(StatusCode::SuccessfulOkIgnoredOrSubstitutedAttributes) }
+    else if n == 0x0002 { Some(StatusCode::SuccessfulOkConflictingAttributes) }
+    else if n == 0x0400 { Some(StatusCode::ClientErrorBadRequest) }
+    else if n == 0x0401 { Some(StatusCode::ClientErrorForbidden) }
+    else if n == 0x0402 { Some(StatusCode::ClientErrorNotAuthenticated) }
+    else if n == 0x0403 { Some(StatusCode::ClientErrorNotAuthorized) }
+    else if n == 0x0404 { Some(StatusCode::ClientErrorNotPossible) }
+    else if n == 0x0405 { Some(StatusCode::ClientErrorTimeout) }
+    else if n == 0x0406 { Some(StatusCode::ClientErrorNotFound) }
+    else if n == 0x0407 { Some(StatusCode::ClientErrorGone) }
+    else if n == 0x0408 { Some(StatusCode::ClientErrorRequestEntityTooLong) }
+    else if n == 0x0409 { Some(StatusCode::ClientErrorRequestValueTooLong) }
+    else if n == 0x040a { Some(StatusCode::ClientErrorDocumentFormatNotSupported) }
+    else if n == 0x040b { Some(StatusCode::ClientErrorAttributesOrValuesNotSupported) }
+    else if n == 0x040c { Some(StatusCode::ClientErrorUriSchemeNotSupported) }
+    else if n == 0x040d { Some(StatusCode::ClientErrorCharsetNotSupported) }
+    else if n == 0x040e { Some(StatusCode::ClientErrorConflictingAttributes) }
+    else if n == 0x040f { Some(StatusCode::ClientErrorCompressionNotSupported) }
+    else if n == 0x0410 { Some(StatusCode::ClientErrorCompressionError) }
+    else if n == 0x0411 { Some(StatusCode::ClientErrorDocumentFormatError) }
+    else if n == 0x0412 { Some(StatusCode::ClientErrorDocumentAccessError) }
+    else if n == 0x0500 { Some(StatusCode::ServerErrorInternalError) }
+    else if n == 0x0501 { Some(StatusCode::ServerErrorOperationNotSupported) }
+    else if n == 0x0502 { Some(StatusCode::ServerErrorServiceUnavailable) }
+    else if n == 0x0503 { Some(StatusCode::ServerErrorVersionNotSupported) }
+    else if n == 0x0504 { Some(StatusCode::ServerErrorDeviceError) }
+    else if n == 0x0505 { Some(StatusCode::ServerErrorTemporaryError) }
+    else if n == 0x0506 { Some(StatusCode::ServerErrorNotAcceptingJobs) }
+    else if n == 0x0507 { Some(StatusCode::ServerErrorBusy) }
+    else if n == 0x0508 { Some(StatusCode::ServerErrorJobCanceled) }
+    else if n == 0x0509 { Some(StatusCode::ServerErrorMultipleDocumentJobsNotSupported) }
+    else { None }
+}
+
+/// A-table-status (Kani: table_status_code + table_status_decode_total, all 65 536 codes): a defined
+/// code decodes to its symbol; an undefined code decodes to nothing or to the catch-all symbol.
+pub axiom fn axiom_status_code_from(n: int)
+    ensures 0 <= n < 65536 ==> (status_code_of(n) is Some ==> #[trigger] from_prim::<StatusCode>(n) == status_code_of(n))
+        && (status_code_of(n) is None ==> (from_prim::<StatusCode>(n) is None
+            || from_prim::<StatusCode>(n) == Some(StatusCode::UnknownStatusCode)));
 
 /// A-table-valuetag (Kani: table_value_tag, all 256 bytes)
 pub axiom fn axiom_value_tag_from(n: int)
